@@ -30,9 +30,14 @@ are modelled as the C loops on such positions (`Tree.treeMinPath`, `Tree.succPat
 `Tree.walk`) and **proved** to compute the in-order neighbours (section "The pointer walks").  What stays
 outside THIS file's model: that the C `parent` fields really hold the parent (re-parenting in `rotate_*`,
 `transplant`, the sentinel's scratch `parent`).  That part is the subject of the pointer-level model
-`Model/PTree.lean` and `Properties/C03PTree.lean` (a heap of nodes with real `parent/left/right/color` fields: the
-rotations, `transplant`, the four walks and the insert fix-up are proved to commute with the inductive tree including
-every parent pointer; `add`/`remove_node` as wholes are executed by the driver and compared with the C heap at L3,
+`Model/PTree.lean` and `Properties/C03PTree.lean` — a heap of nodes with real `parent/left/right/color` fields — where
+the main statement of this file is **proved again for the pointer code**: `C03PTree.pstep_refines` /
+`phistory_refines_ordmap` (every public call of `PTree.step`, with status, out-value and callback log, under every
+refusal schedule, returns what `Spec.OrdMap.step` returns and keeps the heap a represented red-black search tree —
+`add` with its fix-up loop, `remove_node` with both `transplant`s and `rebalance_after_delete`, the lookups, the
+neighbour walks by parent-pointer climbing, the in-order walk, `remove_all`); what is proved only at THIS level:
+the allocation ledger (`Owns`, both allocator triples, `destroy`), iterator sessions with their statuses, the set
+wrapper.  The driver runs both models and compares the pointer-level heap with the C heap at L3,
 node ids and parent ids included); the harness additionally walks the parent pointers on the real heap
 and prints the iterator's node positions computed by climbing them.  Node identity in this file: an iterator
 refers to a node by its key (the C code never moves a key between nodes), so *which block* is freed by
